@@ -337,7 +337,9 @@ class Layout:
                 return '/*L*/' + pick
             if ctx == 'desc' and not self.pinned:
                 return self.rnd.choice([pick + '/*L*/', '/*L*/' + pick])
-            return pick + '/*L*/' + (pick if must else '')
+            # (white space on both sides of the comment also where none is needed: with parseComments=False the
+            # tokenizer then delivers two S tokens in a row)
+            return pick + '/*L*/' + (pick if must or self.rnd.random() < 0.5 else '')
         if must or r < 0.6:
             return pick
         return ''
